@@ -173,7 +173,7 @@ func runCrash(w *tracelog.Writer, seed int64, histories, nops, stride int) error
 // state before and after NewStorage, then continues with a few puts and gets.
 func reopenAndProbe(w *tracelog.Writer, t int, node [32]byte, fs vfs.FS, rng interface{ Intn(int) int }, ops []histOp) {
 	ev := map[string]any{"ev": "open", "t": t, "res": "ok", "pre": []item{}, "preRec": -1, "snap": []item{}, "sizeRec": -1,
-		"radius": tracelog.Ints(make([]byte, 32)), "detail": ""}
+		"radius": tracelog.Ints(make([]byte, 32)), "detail": "", "same": false}
 	var db *cp.DB
 	var cs storage.ContentStorage
 	func() {
@@ -425,4 +425,153 @@ func runOneGated(w *tracelog.Writer, t int, seed int64, c gatedCase) error {
 	w.Emit(map[string]any{"ev": "quiescent", "t": t, "procs": len(procs), "issued": issued, "snap": s, "sizeRec": rec,
 		"radius": radiusBytes(e.cs), "errs": 0})
 	return nil
+}
+
+// ---- torn log tails (C17: death *during* a write) ----------------------------------------------------
+
+// runTorn runs histories of small puts, freezes the process at a late file-system operation keeping all
+// written data, and then cuts the newest write-ahead log at every byte offset of its last `window` bytes
+// (a torn tail: the unsynced end of the log reached the disk only partly). Each cut is reopened through
+// the real NewStorage. Records that belong together but are not written atomically show up here.
+func runTorn(w *tracelog.Writer, seed int64, histories, nops, window int) error {
+	exp := 0
+	for hI := 0; hI < histories; hI++ {
+		hseed := seed*15485863 + int64(hI)
+		rng := common.Rng(hseed)
+		var node [32]byte
+		rng.Read(node[:])
+		// distinct ids: without overwrites the persisted usage figure equals the bytes held exactly, so a
+		// lost update of either is visible
+		pool := mkPool(rng, node, nops, int(hseed%3))
+		var ops []histOp
+		for i := 0; i < nops; i++ {
+			ops = append(ops, histOp{pool[i], mkVal(rng, []int{0, 1, 40, 100, 300, 700}[rng.Intn(6)])})
+		}
+		base, err := runHistory(node, ops, 0, false)
+		if err != nil {
+			return err
+		}
+		// the history ran to the end and the database was closed: its log holds every put; the process is
+		// taken to have died with the tail of that log only partly on disk
+		{
+			r := base
+			k := base.fsOps
+			names, err := r.fs.List("db")
+			if err != nil {
+				return err
+			}
+			newest := ""
+			for _, n := range names {
+				if len(n) > 4 && n[len(n)-4:] == ".log" && n > newest {
+					newest = n
+				}
+			}
+			if newest == "" {
+				continue
+			}
+			data, err := readAll(r.fs, "db/"+newest)
+			if err != nil {
+				return err
+			}
+			if len(data) == 0 {
+				continue
+			}
+			exp++
+			w.Emit(map[string]any{"ev": "init", "t": exp, "node": tracelog.Ints(node[:]), "cap": 1000000})
+			w.Emit(map[string]any{"ev": "crashrun", "t": exp, "history": hI, "k": int(k), "keep": true, "issued": r.issued})
+			lo := len(data) - window
+			if lo < 0 {
+				lo = 0
+			}
+			for cut := lo; cut <= len(data); cut++ {
+				c2 := vfs.NewMem()
+				if _, err := vfs.Clone(r.fs, c2, "db", "db"); err != nil {
+					return err
+				}
+				f, err := c2.Create("db/" + newest)
+				if err != nil {
+					return err
+				}
+				f.Write(data[:cut])
+				f.Close()
+				w.Emit(map[string]any{"ev": "reinit", "t": exp, "cut": cut, "of": len(data)})
+				reopenLight(w, exp, node, c2)
+			}
+		}
+	}
+	return nil
+}
+
+func readAll(fs vfs.FS, name string) ([]byte, error) {
+	f, err := fs.Open(name)
+	if err != nil {
+		return nil, err
+	}
+	defer f.Close()
+	st, err := f.Stat()
+	if err != nil {
+		return nil, err
+	}
+	buf := make([]byte, st.Size())
+	_, err = f.ReadAt(buf, 0)
+	if err != nil && len(buf) > 0 && err.Error() != "EOF" {
+		return nil, err
+	}
+	return buf, nil
+}
+
+// reopenLight is reopenAndProbe without the follow-up operations.
+func reopenLight(w *tracelog.Writer, t int, node [32]byte, fs vfs.FS) {
+	ev := map[string]any{"ev": "open", "t": t, "res": "ok", "pre": []item{}, "preRec": -1, "snap": []item{}, "sizeRec": -1,
+		"radius": tracelog.Ints(make([]byte, 32)), "detail": "", "same": false}
+	var db *cp.DB
+	var cs storage.ContentStorage
+	func() {
+		defer func() {
+			if r := recover(); r != nil {
+				ev["res"], ev["detail"] = "panic", fmt.Sprint(r)
+			}
+		}()
+		var err error
+		db, err = cp.Open("db", pebbleOpts(fs))
+		if err != nil {
+			ev["res"], ev["detail"] = "dberr", err.Error()
+			return
+		}
+		pre, preRec, _ := scan(db)
+		ev["pre"], ev["preRec"] = pre, preRec
+		cs, err = pebble.NewStorage(storage.PortalStorageConfig{StorageCapacityMB: 1, NetworkName: "verif", NodeId: node}, db)
+		if err != nil {
+			ev["res"], ev["detail"] = "err", err.Error()
+			return
+		}
+		s, rec, _ := scan(db)
+		ev["snap"], ev["sizeRec"], ev["radius"] = s, rec, radiusBytes(cs)
+		if sameItems(s, ev["pre"].([]item)) { // keep the trace small: "same" = the key scan after NewStorage equals the one before
+			ev["snap"], ev["same"] = []item{}, true
+		}
+	}()
+	w.Emit(ev)
+	if db != nil {
+		waitCompactions(cs)
+		forget(cs)
+		db.Close()
+	}
+}
+
+func sameItems(a, b []item) bool {
+	if len(a) != len(b) {
+		return false
+	}
+	for i := range a {
+		if a[i].Len != b[i].Len || a[i].Tag != b[i].Tag || len(a[i].K) != len(b[i].K) {
+			return false
+		}
+		for j := range a[i].K {
+			if a[i].K[j] != b[i].K[j] {
+				return false
+			}
+		}
+	}
+	return true
 }
